@@ -548,6 +548,24 @@ class Emitter:
                 src, it = self.source.find(rel, cont, name)
                 self.emit(widen_vis(strip_attrs(src[it['start']:it['end']])) + '\n')
                 i += 1
+            elif s.startswith('//@overrides '):
+                # trait-impl methods that the template does not address (an impl that overrides a
+                # default method): emitted verbatim, checked against the trait's contract
+                parts = [x.strip() for x in re.split(r'\s+::\s+', s[len('//@overrides '):])]
+                rel, cont = parts[0], ' :: '.join(parts[1:])
+                tags = []
+                if i + 1 < len(lines) and lines[i + 1].strip().startswith('//@tags'):
+                    tags = lines[i + 1].strip().split()[1:]
+                    i += 1
+                if self.inline:  # pass 2 only: the addressed set is complete
+                    self.source.load(rel)
+                    for f in self.source.allfns.get(rel, []):
+                        if f['cont'] == norm(cont) and (rel, f['cont'], f['name']) not in self.source.addressed:
+                            fake = ['//@fn %s :: %s :: %s' % (rel, cont, f['name']), '//@tags ' + ' '.join(tags), '//@body']
+                            self.process_fn(fake, 0, negate)
+                            self.source.addressed.discard((rel, f['cont'], f['name']))
+                            self.functions[-1]['rules'].append('OVERRIDE')
+                i += 1
             elif s.startswith('//@fn '):
                 i = self.process_fn(lines, i, negate)
             elif s.startswith('//@lemma'):
